@@ -105,6 +105,32 @@ def build_harness(flavour='san'):
         return exe, log
 
 
+def build_engine(flavour='san'):
+    """the engine binary itself: engine/main.cpp (its own initialisation order and `Uci` construction) linked with the same
+    objects as the harness.  Used for UCI sessions that must not depend on the harness' main()."""
+    flags = BASE_FLAGS + {'san': SAN_FLAGS, 'tsan': TSAN_FLAGS, 'fast': FAST_FLAGS}[flavour]
+    build_harness(flavour)          # makes sure the engine objects of the current tree exist
+    d, cpps, hdrs = engine_sources()
+    hdr_hash = sha(*[read(os.path.join(d, h)) for h in hdrs], *hdrs)
+    inc = os.path.join(CACHE, 'inc')
+    objdir = os.path.join(CACHE, 'obj')
+    with Lock('build-' + flavour):
+        objs = []
+        for c in cpps:
+            key = sha(read(os.path.join(d, c)), hdr_hash, ' '.join(flags), flavour)
+            objs.append(os.path.join(objdir, f'{c[:-4]}.{flavour}.{key}.o'))
+        msrc = os.path.join(d, 'main.cpp')
+        ekey = sha(read(msrc), hdr_hash, *[os.path.basename(o) for o in objs], ' '.join(flags))
+        exe = os.path.join(CACHE, f'engine.{flavour}.{ekey}')
+        if not os.path.exists(exe):
+            r = run([CXX] + flags + ['-I', d, '-I', inc, msrc] + objs + ['-o', exe + '.tmp'])
+            if r.returncode != 0:
+                raise RuntimeError('engine link failed:\n' + r.stdout[-4000:])
+            os.replace(exe + '.tmp', exe)
+        prune(CACHE, 6, prefix='engine.')
+        return exe
+
+
 def prune(directory, keep, prefix=''):
     try:
         fs = [os.path.join(directory, f) for f in os.listdir(directory) if f.startswith(prefix) and os.path.isfile(os.path.join(directory, f)) and not f.endswith('.lock')]
@@ -171,6 +197,14 @@ def lake_build(targets, timeout=3600):
     with Lock('lake'):
         t0 = time.time()
         r = run(['lake', 'build'] + list(targets), cwd=LEAN, timeout=timeout)
+        return r.returncode == 0, r.stdout, time.time() - t0
+
+
+def leanchecker(module, timeout=3600):
+    """independent re-check of the compiled module (one module per call)"""
+    with Lock('lake'):
+        t0 = time.time()
+        r = run(['lake', 'env', 'leanchecker', module], cwd=LEAN, timeout=timeout)
         return r.returncode == 0, r.stdout, time.time() - t0
 
 
